@@ -12,7 +12,7 @@ R3  the final store has the corresponding activity flags False.
 from __future__ import annotations
 
 from ..commands import CommandRun
-from ..traceutil import statements, out_of_scope_exception, chain, decisions_text, norm_code
+from ..traceutil import statements, out_of_scope_exception, out_of_scope_path, chain, decisions_text, norm_code
 from ..values import *
 
 # RS274/NGC + Marlin: M5 stop spindle, M9 coolant off, M0 program pause, M30 program end + reset
@@ -36,7 +36,7 @@ def analyse(W, name, f, ctx, desc, path):
     entry = f"{name}({desc})"
     if path.outcome == "raise":
         cls = path.value.cls
-        if out_of_scope_exception(P, cls):
+        if out_of_scope_path(P, path):
             items.append(("ok", "R1", f"{entry}: only I/O-class exception {cls}"))
             return items
         fn = path.raise_site[0]
